@@ -375,7 +375,7 @@ impl State {
     }
 
     // what a build may leave behind: remember it on entry
-    fn build_mark(&mut self) -> (usize, usize, usize, usize) {
+    fn build_mark(&mut self) -> (usize, usize, usize, usize, usize) {
         if self.nested.is_empty() && self.last_error.as_ref().map_or(false, |e| e.runtime) {
             // a program that failed at run time is not resumed by later sources,
             // and what it left on the run-time stacks goes with it
@@ -384,13 +384,13 @@ impl State {
             self.return_stack.truncate(self.ctx.rs_len);
             self.special.truncate(self.ctx.ss_ptr);
         }
-        (self.nested.len(), self.input.len(), self.data_stack.len(), self.sources.len())
+        (self.nested.len(), self.input.len(), self.data_stack.len(), self.sources.len(), self.heap.len())
     }
 
     // a rejected source has no effect: drop its unread text, pending flows,
     // half-built code and definitions, and return to the enclosing context
-    fn build_abort(&mut self, mark: (usize, usize, usize, usize)) {
-        let (depth, inputs, ds_len, sources) = mark;
+    fn build_abort(&mut self, mark: (usize, usize, usize, usize, usize)) {
+        let (depth, inputs, ds_len, sources, heap) = mark;
         if self.nested.len() <= depth {
             // the source was built, it failed while running: halt it
             self.ctx.ip = self.code_origin();
@@ -403,6 +403,7 @@ impl State {
         self.code.truncate(ctx.cs_len);
         self.debug_map.truncate(ctx.cs_len);
         self.dict.truncate(ctx.di_len);
+        self.heap.truncate(heap);
         self.data_stack.truncate(ds_len);
         self.return_stack.truncate(ctx.rs_len);
         self.loops.truncate(ctx.ls_len);
